@@ -269,3 +269,6 @@ def run(P, rep, tier):
     r_common_type(P, rep, 'R01.1', 'int')
     rep.rule('R01.2', 'add_type gives every operator the C11 result type and wraps the operands in the prescribed conversions, for every pair of integer operand types', floor=300)
     r_add_type(P, rep, 'R01.2', 'int')
+    from ..lib_types import r_pointer_scaling
+    rep.rule('R01.3', 'pointer arithmetic: p+n, n+p, p-n scale n by the element size as a 64-bit quantity and keep the pointer type; p-q is the signed 64-bit byte difference divided by the element size', floor=9)
+    r_pointer_scaling(P, rep, 'R01.3')
